@@ -5,7 +5,7 @@ from .. import core, mt_check
 def run(tier, seed, verdict):
     quick = tier == "quick"
     res = mt_check.MtResult()
-    a = [["seed=%d" % seed, "mode=bulk", "thorough=%d" % (0 if quick else 1)]]
+    a = [["seed=%d" % seed, "mode=bulk", "thorough=%d" % (0 if quick else 1)], ["seed=%d" % seed, "mode=policy"]]
     if quick:
         # every length 0..200 plus a stride through the rest and the chunking boundaries
         a += [["seed=%d" % seed, "mode=find", "lo=0", "hi=200", "step=1"],
@@ -20,21 +20,28 @@ def run(tier, seed, verdict):
                                                   ["seed=%d" % seed, "mode=find", "lo=0", "hi=400", "step=3"]],
                         verdict, res, timeout=1200)
     st = res.stats
-    if not st.get("bulk_cases") or not st.get("find_if_cases") or not st.get("bulk_stop_cases"):
+    if not st.get("bulk_cases") or not st.get("find_if_cases") or not st.get("bulk_stop_cases") or \
+            not st.get("policy_cases") or not st.get("policy_overlapping_calls_seen"):
         raise core.HarnessFailure("bulk harness observed nothing: %s" % st)
     cov = {
-        "evaluations": st.get("bulk_cases", 0) + st.get("find_if_cases", 0),
-        "distinct_nontrivial": st.get("bulk_cases", 0) + st.get("find_if_cases", 0),
+        "evaluations": st.get("bulk_cases", 0) + st.get("find_if_cases", 0) + st.get("policy_cases", 0),
+        "distinct_nontrivial": st.get("bulk_cases", 0) + st.get("find_if_cases", 0) + st.get("policy_cases", 0),
         "rule": "cases are enumerated, not sampled, so every evaluation is a distinct input: bulk_schedule(n) for "
                 "n in {0..40 (thorough: 0..70), 255, 256, 257, 1000, 4096} x policies {seq, unseq, par, par_unseq} x "
                 "schedulers {inline, single thread, pool(4)} x {no stop, stop requested from inside set_next at every "
                 "chunk boundary and one random index}; bulk_transform/bulk_join/indexed_for stacks over the same sizes; "
                 "find_if over exactly-sized heap ranges for the enumerated lengths (quick: 0..200, every 7th to 1100, "
                 "985..1000; thorough: every length 0..1100) x policies {seq, par} x match position {none, first, middle, "
-                "last, several}",
+                "last, several}; execution-policy composition: bulk_transform(bulk_transform(src, f1, P1), f2, P2) connected "
+                "to a receiver of policy P3 for all 4x4x4 policy triples x n in {0,1,7,24}, over a source that honours the "
+                "advertised policy (three rendezvousing threads when parallel is permitted): the advertised policy must be "
+                "the intersection, and no function/receiver that did not permit parallel execution may see overlapping "
+                "calls (the run must have produced overlapping calls where they are permitted)",
         "samples": ["bulk_schedule: %d cases (%d with stop), %d indices visited" % (
             st.get("bulk_cases", 0), st.get("bulk_stop_cases", 0), st.get("bulk_indices_visited", 0)),
-            "find_if: %d cases, %d predicate calls" % (st.get("find_if_cases", 0), st.get("find_if_predicate_calls", 0))],
+            "find_if: %d cases, %d predicate calls" % (st.get("find_if_cases", 0), st.get("find_if_predicate_calls", 0)),
+            "policy composition: %d cases, %d parallel runs, %d overlapping calls observed where permitted" % (
+                st.get("policy_cases", 0), st.get("policy_parallel_runs", 0), st.get("policy_overlapping_calls_seen", 0))],
         "counts": dict(st),
         "sanitizer": {"asan_runs": res.san_runs["asan"], "tsan_runs": res.san_runs["tsan"],
                       "tsan_reports": res.tsan_reports},
